@@ -28,6 +28,8 @@ pub const KF_MAKER_INSTANCES: &str = "C01-wasm-maker-instances";
 pub const KF_TUPLE_IF: &str = "C01-wasm-tuple-if";
 pub const KF_DEFAULT_ARGS: &str = "C01-wasm-default-args";
 pub const KF_GLOBAL_TUPLE: &str = "C01-wasm-global-tuple-in-stateful-fn";
+/// (fixed: both findings that needed block operands switched off were the parser's tuple-lookahead
+/// defect; the constant is kept for the replays' ids)
 pub const KF_BLOCK_OPERAND: &str = "C01-wasm-block-operand";
 pub const KF_PROJ_COND: &str = "C01-wasm-proj-in-cond-and-arm";
 pub const KF_CAPTURE_DESTRUCTURED: &str = "C01-wasm-closure-captures-destructured";
@@ -76,10 +78,6 @@ pub fn pcfg(cx: &Cx) -> (PCfg, Vec<&'static str>) {
     if cx.excluded(KF_GLOBAL_TUPLE) {
         c.tuple_globals = false;
         off.push(KF_GLOBAL_TUPLE);
-    }
-    if cx.excluded(KF_BLOCK_OPERAND) {
-        c.block_operands = false;
-        off.push(KF_BLOCK_OPERAND);
     }
     if cx.excluded(KF_PROJ_COND) {
         c.proj_in_cond = false;
